@@ -71,7 +71,7 @@ Inductive wd_obs :=
 Definition wd_case : Type := tracker * nat * nat * bool * list wd_obs.
 
 (* scheduling slack granted on top of the scan period *)
-Definition slack_ms : N := 2500.
+Definition slack_ms : N := 4000.
 
 Definition wd_obs_ok (period_s : N) (o : wd_obs) : bool :=
   match o with
